@@ -42,7 +42,11 @@ type C06Case struct {
 	// Resume[i] says how the job is resumed after append i: 0 maintenanceJob (periodic
 	// fstat path; reopens the descriptor when nothing was appended), 1 refreshFile with a
 	// write notification, 2 refreshFile with a create notification.
-	Resume []int  `json:"resume"`
+	Resume []int `json:"resume"`
+	// RaceAt[i] = k > 0: append i is not made between two read rounds but DURING round i, when the
+	// worker has just done its k-th read of that round (after the round if it needs fewer reads); the
+	// job is then resumed through maintenanceJob. 0 / missing = between the rounds.
+	RaceAt []int  `json:"race_at,omitempty"`
 	Buf    int    `json:"buf"`    // read_buffer_size >= 1
 	Max    int    `json:"max"`    // max_event_size, 0 = unlimited
 	CutOff bool   `json:"cutoff"` // cut_off_event_by_limit
@@ -64,6 +68,10 @@ type c06Call struct {
 type c06Rec struct {
 	mu    sync.Mutex
 	calls []c06Call
+	// hook runs inside IncReadOps (the worker has just returned from a read), with the number of reads
+	// since the hook was armed
+	hook  func(n int)
+	reads int
 }
 
 // index of pipeline.Offsets.current (unexported in another package): read through reflection.
@@ -83,7 +91,20 @@ func (r *c06Rec) In(_ pipeline.SourceID, _ string, off pipeline.Offsets, data []
 	r.mu.Unlock()
 	return uint64(n)
 }
-func (r *c06Rec) IncReadOps()                      {}
+func (r *c06Rec) IncReadOps() {
+	r.mu.Lock()
+	r.reads++
+	n, h := r.reads, r.hook
+	r.mu.Unlock()
+	if h != nil {
+		h(n)
+	}
+}
+func (r *c06Rec) arm(h func(n int)) {
+	r.mu.Lock()
+	r.reads, r.hook = 0, h
+	r.mu.Unlock()
+}
 func (r *c06Rec) IncMaxEventSizeExceeded(...string) {}
 
 func (r *c06Rec) snapshot() []c06Call {
@@ -146,13 +167,14 @@ func c06WaitDone(job *Job, workerDone chan struct{}) string {
 }
 
 type c06Result struct {
+	raced    int // appends made during a read round
 	calls    []c06Call
 	reopened int
 	fail     *vkit.SigError
 }
 
 // c06Execute plays one (buffer, append schedule) over the case's content with real code.
-func c06Execute(c *C06Case, buf int, splits, resume []int) (res c06Result) {
+func c06Execute(c *C06Case, buf int, splits, resume, raceAt []int) (res c06Result) {
 	verifSetup()
 	dir := verifTempDir("vc06-")
 	defer os.RemoveAll(dir)
@@ -253,6 +275,34 @@ func c06Execute(c *C06Case, buf int, splits, resume []int) (res c06Result) {
 		return true
 	}
 
+	// racing appends: chunk i is written from inside the worker's read loop of round i
+	chunkOf := func(i int) []byte {
+		end := len(c.Content)
+		if i+1 < len(splits) {
+			end = splits[i+1]
+		}
+		return c.Content[splits[i]:end]
+	}
+	raced := make([]bool, len(splits))
+	var raceMu sync.Mutex
+	armRace := func(i int) {
+		rec.arm(nil)
+		if i >= len(splits) || i >= len(raceAt) || raceAt[i] <= 0 || len(chunkOf(i)) == 0 {
+			return
+		}
+		k := raceAt[i]
+		rec.arm(func(n int) {
+			raceMu.Lock()
+			defer raceMu.Unlock()
+			if n == k && !raced[i] {
+				raced[i] = true
+				if _, err := wf.Write(chunkOf(i)); err != nil {
+					verifInfra("racing append: %v", err)
+				}
+			}
+		})
+	}
+	armRace(0)
 	jp.addJob(rf, stat, path, "") // seeks per offsets_op and queues the job for the worker
 	jp.jobsMu.RLock()
 	job := jp.jobs[sid]
@@ -270,17 +320,30 @@ func c06Execute(c *C06Case, buf int, splits, resume []int) (res c06Result) {
 			end = splits[i+1]
 		}
 		chunk := c.Content[splits[i]:end]
-		if len(chunk) > 0 {
+		rec.arm(nil) // round i is over
+		raceMu.Lock()
+		wasRaced := raced[i]
+		raceMu.Unlock()
+		if len(chunk) > 0 && !wasRaced {
 			if _, err := wf.Write(chunk); err != nil {
 				verifInfra("append: %v", err)
 			}
 		}
+		armRace(i + 1)
 		started := true
-		switch resume[i] {
+		how := resume[i]
+		if wasRaced {
+			how = c06ResumeMaintenance
+			res.raced++
+		}
+		switch how {
 		case c06ResumeMaintenance:
 			r := jp.maintenanceJob(job)
 			switch {
 			case len(chunk) > 0 && r == maintenanceResultResumed:
+			case wasRaced && r == maintenanceResultNoop:
+				// the round itself already read what was appended under its feet
+				started = false
 			case len(chunk) == 0 && r == maintenanceResultNoop:
 				started = false
 				res.reopened++
@@ -581,7 +644,7 @@ func runC06(c C06Case) *vkit.Outcome {
 	o.Class("mode=" + c.Mode)
 	o.Class("limit=" + lm)
 
-	r := c06Execute(&c, c.Buf, c.Splits, c.Resume)
+	r := c06Execute(&c, c.Buf, c.Splits, c.Resume, c.RaceAt)
 	describe := func(buf int, splits, resume []int) string {
 		return fmt.Sprintf("content %q (len %d) splits %v resume %v read_buffer_size %d max_event_size %d cut_off %v offsets_op %s start %d",
 			c.Content, len(c.Content), splits, resume, buf, c.Max, c.CutOff, c.Mode, c.Start)
@@ -595,13 +658,16 @@ func runC06(c C06Case) *vkit.Outcome {
 		return o
 	}
 	sh := c06ShapeOf(&c, c.Buf, c.Splits)
+	if r.raced > 0 {
+		o.Class("append-during-a-read-round")
+	}
 	if r.reopened > 0 {
 		o.Class("descriptor-reopened-between-rounds")
 	}
 
 	if c.AltBuf > 0 {
 		o.Class("metamorphic-twin")
-		r2 := c06Execute(&c, c.AltBuf, c.AltSplits, c.AltResume)
+		r2 := c06Execute(&c, c.AltBuf, c.AltSplits, c.AltResume, nil)
 		if r2.fail != nil {
 			o.Failf(pC06, r2.fail.Sig, "%v\n%s", r2.fail.Err, describe(c.AltBuf, c.AltSplits, c.AltResume))
 			return o
@@ -743,6 +809,15 @@ func genC06(t *rapid.T) C06Case {
 	ns := rapid.IntRange(1, 4).Draw(t, "nsplits")
 	c.Splits = c06GenSplits(t, "split", 0, L, ns)
 	c.Resume = c06GenResume(t, "resume", ns)
+	if rapid.IntRange(0, 2).Draw(t, "races") == 0 {
+		for i := 0; i < ns; i++ {
+			k := 0
+			if rapid.IntRange(0, 1).Draw(t, "race") == 0 {
+				k = rapid.IntRange(1, 4).Draw(t, "race_at")
+			}
+			c.RaceAt = append(c.RaceAt, k)
+		}
+	}
 	switch rapid.IntRange(0, 9).Draw(t, "mode") {
 	case 0, 1:
 		c.Mode = "tail"
